@@ -2,6 +2,7 @@
 extracted model and with the reference parser written from the header comment of getopt.h."""
 import itertools
 import os
+import re
 
 import vlib
 
@@ -13,14 +14,50 @@ def hx(b):
 SHORT_POOL = [b"-a", b"-b", b"-c", b"-o", b"-f", b"-x", b"-=", b"-1"]
 LONG_POOL = [b"--foo", b"--fo", b"--foobar", b"--bar", b"--o", b"--out", b"--a", b"--b-c", b"---", b"--\xff\x01"]
 
-# the tables compiled into harness/drv_getopt.c (label order); the model gets the same table,
-# with one free slot at the end for the missing-argument label where there is one
-SW_TABLES = {
-    0: ([(b"-b", 0), (b"--bar", 0), (b"-f", 1), (b"--foo", 1)], False),
-    1: ([(b"-b", 0), (b"--bar", 0), (b"-f", 1), (b"--foo", 1)], True),
-    2: ([(b"--fo", 0), (b"--foo", 1), (b"--foobar", 0), (b"-o", 1), (b"-x", 0)], True),
-    3: ([(b"-a", 0), (b"-=", 0), (b"-o", 1), (b"--out", 1), (b"--o", 0)], False),
-}
+# the GETOPT_SWITCH statements compiled into harness/drv_getopt.c, read from its text: for loop k the
+# list of its source lines from the GETOPT_SWITCH line (offset 0 = dispatch slot 0) to the line before
+# GETOPT_DEFAULT; a line is None | "M" (GETOPT_MISSING_ARG) | (name, hasarg).  The model gets exactly
+# this layout (it runs the indexing pass of the macros on it), the reference parser the label set.
+_RE_FN = re.compile(r"^static void loop(\d+)\(")
+_RE_LABEL = re.compile(r'GETOPT_(OPTARG|OPT)\("([^"\\]*)"\)|GETOPT_(MISSING_ARG)\b')
+
+
+def read_layouts(path=None):
+    path = path or os.path.join(vlib.VERIF, "harness", "drv_getopt.c")
+    lays, k, lay = {}, None, None
+    for line in open(path):
+        m = _RE_FN.match(line)
+        if m:
+            k, lay = int(m.group(1)), None
+            continue
+        if k is None or line.lstrip().startswith(("#", "*", "/*")):
+            continue
+        if lay is None:
+            if "GETOPT_SWITCH(ch)" not in line:
+                continue
+            lay = []
+        if "GETOPT_DEFAULT" in line:
+            lays[k] = lay
+            k, lay = None, None
+            continue
+        labels = _RE_LABEL.findall(line)
+        if len(labels) > 1:
+            raise ValueError("two GETOPT labels on one line: " + line)
+        if not labels:
+            lay.append(None)
+        elif labels[0][2]:
+            lay.append("M")
+        else:
+            lay.append((labels[0][1].encode(), 1 if labels[0][0] == "OPTARG" else 0))
+    if k is not None or not lays:
+        raise ValueError("drv_getopt.c: GETOPT_SWITCH loops not recognised")
+    return lays
+
+
+SW_LAYOUTS = read_layouts()
+SW_KEYS = sorted(SW_LAYOUTS)
+# loops that write the first label on the GETOPT_SWITCH line itself / other layouts of loops 0-2
+SW_RELAYOUT = [k for k in SW_KEYS if k >= 4]
 
 
 class Table:
@@ -38,13 +75,10 @@ class Table:
 
 
 def sw_table(k):
-    ents, miss = SW_TABLES[k]
-    slots = list(ents)
-    m = None
-    if miss:
-        slots = slots + [None]
-        m = len(slots) - 1
-    return Table(slots, m)
+    """the dispatch table the macros build for loop k: slot = line offset, maxopts = offset of GETOPT_DEFAULT"""
+    lay = SW_LAYOUTS[k]
+    miss = [i for i, l in enumerate(lay) if l == "M"]
+    return Table([l if isinstance(l, tuple) else None for l in lay], miss[-1] if miss else None)
 
 
 def random_table(r):
@@ -96,6 +130,13 @@ def parse_text(tab, argv, stop=None):
     return "api " + tab.text() % ("-" if stop is None else str(stop)) + " %d %s" % (len(argv), " ".join(hx(a) for a in argv))
 
 
+def lay_text(k, argv, stop=None):
+    lay = SW_LAYOUTS[k]
+    return "lay %s %d %s %d %s" % ("-" if stop is None else str(stop), len(lay),
+                                   " ".join("-" if l is None else "M" if l == "M" else "%s:%d" % (hx(l[0]), l[1]) for l in lay),
+                                   len(argv), " ".join(hx(a) for a in argv))
+
+
 def sw_text(k, argv, stop=None):
     return "sw %d %s %d %s" % (k, "-" if stop is None else str(stop), len(argv), " ".join(hx(a) for a in argv))
 
@@ -127,8 +168,14 @@ def gen(ctx, sub, hostile=False):
         # parses: list of (k|None, Table, argv, stop)
         c, m = [], []
         for k, tab, argv, stop in parses:
-            m.append(parse_text(tab, argv, stop))
+            m.append(lay_text(k, argv, stop) if k is not None else parse_text(tab, argv, stop))
             c.append(sw_text(k, argv, stop) if k is not None else parse_text(tab, argv, stop))
+            if k is not None:
+                lay = SW_LAYOUTS[k]
+                ctx.count(sub + ".layout.first-label-on-switch-line" if lay[0] is not None else
+                          sub + ".layout.first-label-below")
+                ctx.count(sub + ".layout.missing-" + ("absent" if "M" not in lay else "first" if [l for l in lay if l][0] == "M"
+                                                       else "last" if [l for l in lay if l][-1] == "M" else "middle"))
             classify_argv(ctx, sub, tab, argv)
         cc.append(" | ".join(c))
         cm.append(" | ".join(m))
@@ -156,7 +203,7 @@ def gen(ctx, sub, hostile=False):
              [b"-b", b"--", b"--foo", b"bar", b"baz"], [b"-a"], [b"-f"], [b"--foo"], [b"--bar=foo"],
              [b"--foo", b"--", b"--bar"], [b"-f", b"-"], [b"-bf"], [b"-fb"], [b"--foobar"], [b"--fo=1"],
              [b"-o=x"], [b"-=a="], [b"-a=", b"-o"], [b"--o=1"], [b"--out="], [b"--out", b""], [b"", b"-a"]]
-    for k in SW_TABLES:
+    for k in SW_KEYS:
         for a in fixed:
             add([(k, sw_table(k), [b"prog"] + a, None)])
             add([(None, sw_table(k), [b"prog"] + a, None)])
@@ -165,7 +212,7 @@ def gen(ctx, sub, hostile=False):
     for _ in range(nrand):
         kind = r.random()
         if kind < 0.25:
-            k = r.randrange(4)
+            k = r.choice(SW_KEYS)
             tab = sw_table(k)
         else:
             k = None
@@ -179,7 +226,7 @@ def gen(ctx, sub, hostile=False):
         for j in range(nparse):
             if j > 0 and r.random() < 0.5:
                 if r.random() < 0.3:
-                    k = r.randrange(4)
+                    k = r.choice(SW_KEYS)
                     tab = sw_table(k)
                 else:
                     k = None
@@ -195,11 +242,13 @@ def gen(ctx, sub, hostile=False):
         ctx.count(sub + (".mode.switch" if k is not None else ".mode.api"))
         add(parses)
 
-    # exhaustive: every argv of length 0..L over a 12-word alphabet, per table
+    # exhaustive: every argv of length 0..L over a 12-word alphabet, per table; the re-laid-out
+    # switch statements (first label on the GETOPT_SWITCH line, ...) one word shorter
     L = ctx.n(3, 4)
-    tabs = [(k, sw_table(k)) for k in SW_TABLES] if not ctx.quick else [(2, sw_table(2))]
-    tabs += [(None, sw_table(3)), (None, Table([(b"-a", 1), None, (b"--a", 1), (b"-b", 0), (b"--ab", 0)], 1))]
-    for k, tab in tabs:
+    tabs = [(k, sw_table(k), L) for k in SW_KEYS if k < 4] if not ctx.quick else [(2, sw_table(2), L)]
+    tabs += [(k, sw_table(k), L - 1) for k in SW_RELAYOUT]
+    tabs += [(None, sw_table(3), L), (None, Table([(b"-a", 1), None, (b"--a", 1), (b"-b", 0), (b"--ab", 0)], 1), L)]
+    for k, tab, lmax in tabs:
         names = tab.names()
         sh = [n for n, h in names if len(n) == 2]
         lo = [n for n, h in names if len(n) > 2]
@@ -207,7 +256,7 @@ def gen(ctx, sub, hostile=False):
         al += [sh[0], sh[-1] + sh[0][1:2], sh[-1] + b"=v"]
         al += [lo[0], lo[0] + b"=v", lo[-1], lo[-1] + b"=", lo[0] + b"x"]
         al = list(dict.fromkeys(al))[:12]
-        for ln in range(0, L + 1):
+        for ln in range(0, lmax + 1):
             for tup in itertools.product(al, repeat=ln):
                 add([(k, tab, [b"prog"] + list(tup), None)])
                 ctx.count(sub + ".exhaustive")
@@ -285,10 +334,13 @@ def _run(ctx, sub, hostile):
     ctx.record(sub, cc, set(zip(cm, impl)),
                "argv of 0..8 words over an alphabet derived from the table (registered/unregistered short and long "
                "options, packs, attached and =value arguments, '-', '--', '', operands), random sparse tables through the "
-               "back-end API and four compiled GETOPT_SWITCH loops, 1-3 parses per process state separated by optreset "
+               "back-end API and %d compiled GETOPT_SWITCH loops (the same option sets in several source layouts: first "
+               "label on the GETOPT_SWITCH line = slot 0, compact, blank lines / multi-line bodies, label directly before "
+               "GETOPT_DEFAULT, GETOPT_MISSING_ARG first/middle/last/absent; the model runs the macros' indexing pass on the "
+               "layout read from the driver source), 1-3 parses per process state separated by optreset "
                "(some left early inside a pack); exhaustive argv up to length %d over 12 words; compared: ordered "
                "(label, optarg) list and final optind against extracted model and reference parser; "
-               "non-trivial = distinct (case, result)" % ctx.n(3, 4),
+               "non-trivial = distinct (case, result)" % (len(SW_KEYS), ctx.n(3, 4)),
                samples=[cc[len(cc) // 2][:200], cc[-1][:200]])
     # irregular tables: model only (+ as-coded reference when nothing aborts)
     icf = gen_irregular(ctx, sub)
